@@ -1,28 +1,101 @@
-HOOK_COMMITS = ["1f23ce1", "19a6366"]
+HOOK_COMMITS = ["1f23ce1", "19a6366", "2f68a08", "696cad2", "6d64dfa", "02a7a17", "ec44b21"]
 NOTES = ("Solver-based checking of the real code: Kani/CBMC harnesses over roto's Rust (engine K), translation validation of the "
          "emitted cranelift IR with symbolic arguments in z3 (engine T), symbolic interpretation of MIR slices of the LIR evaluator "
-         "(engine M). See DESIGN.md. Exit 2 = inconclusive (timeout, OOM, vacuous harness, non-reproducing counterexample) and is "
-         "never reported as 'held'.")
+         "(engine M). See DESIGN.md, section 10 for the as-built record. Exit 2 = inconclusive (timeout, OOM, vacuous harness, "
+         "non-reproducing counterexample, unsupported encoding) and is never reported as 'held'. Genuine defects found on the pinned "
+         "tree were repaired with 'fix:' commits in /repo (listed in known-findings.json under 'fixed'); three are recorded as known findings.")
 ENGINES = [
-    {"name": "K", "path": "/verif/kani", "serves_properties": ["C02", "C05"],
+    {"name": "K", "path": "/verif/kani", "serves_properties": ["C02", "C05", "C06", "C09", "C10", "C15", "C16", "C17", "C20"],
      "kind_free_text": "Kani 0.68 / CBMC 6.11 proof harnesses (external crate, path dependency on /repo, cfg nlnetlabs_roto_verif), "
-                       "one process per harness, native replay twin + Miri for counterexamples"},
+                       "one process per harness, native replay twin (dev + release) and Miri for counterexamples"},
+    {"name": "T", "path": "/verif/tv", "serves_properties": ["C01", "C02", "C03", "C05", "C08", "C09", "C10"],
+     "kind_free_text": "translation validation: the real compiler's emitted cranelift IR (captured by hook H2 through /verif/extract) is executed "
+                       "symbolically path by path in z3 with symbolic arguments and compared with a reference semantics of the source; "
+                       "every model is replayed against the real JIT"},
+    {"name": "M", "path": "/verif/tv/mir.py", "serves_properties": ["C20"],
+     "kind_free_text": "symbolic interpretation of the nightly MIR dump of lir::eval::eval's instruction arms, compared in z3 with engine T's "
+                       "encoding of the CLIF emitted for the same LIR"},
 ]
-UNDER_CONSTRUCTION = "check under construction in this session (see DESIGN.md section 5); not claimed until its command exists"
 
-claim("C02", "model_checking",
-      "Bounded model checking (CBMC via Kani) of the layout arithmetic behind every field/payload offset: for all field sizes <= 2^16 and "
-      "alignments <= 16, one inductive LayoutBuilder step from an arbitrary reachable state, union, concat, offset_by.",
-      "Trusts rustc/Kani MIR->GOTO, CBMC, and the bounds stated in the evidence; the generated-code half (copy/mutate/compare of "
-      "aggregates) is decided by engine T when built.",
-      "Kani/CBMC bounded model checking of runtime/layout.rs with symbolic sizes and alignments", "K", "DESIGN.md 5/C02")
-claim("C05", "model_checking",
-      "Bounded model checking (CBMC via Kani), one harness per instantiation of Option/Result/Verdict: for all payload values the repr(u8) "
-      "mirror has tag and payload where roto's enum layout rule puts them (both directions) and untransform(transform(v)) == v.",
-      "Instantiation list is the bound; machine calling convention and String/List contents outside the claim.",
-      "Kani/CBMC bounded model checking of value/{option,result,verdict}.rs + Value impls against runtime/layout.rs", "K", "DESIGN.md 5/C05")
-for p in ["C01", "C03", "C06", "C08", "C09", "C10", "C15", "C16", "C17", "C20"]:
-    NA[p] = UNDER_CONSTRUCTION
+TV = "translation_validation"
+MC = "model_checking"
+
+claim("C01", TV,
+      "For every program of a generated corpus (operator x type cells, literal spellings, random nested expressions, loops, early return, "
+      "recursion, Option/match/?, operator chains) z3 decides, for ALL argument values, that the value returned by the cranelift IR the real "
+      "compiler emitted equals the reference semantics of the source, on every jointly feasible path pair within the loop bound.",
+      "Programs are generated (enumerated cells + seeded random), inputs/paths are decided by the solver. Trusts cranelift's back end, z3, my CLIF "
+      "opcode table and the reference semantics; every reported difference is replayed on the real JIT. Loop bound 3/4, inlining depth 4.",
+      "translation validation of emitted CLIF against a reference semantics in z3 (path-wise symbolic execution, symbolic arguments)", "T", "DESIGN.md 5/C01, 10.4")
+claim("C02", MC,
+      "Kani/CBMC: the layout arithmetic behind every field and payload offset, for all sizes <= 2^16 and alignments <= 16 (inductive step, union, "
+      "concat, offset_by). Engine T: records/enums with symbolic field contents - construct, copy, mutate one copy, compare, match: result equals "
+      "value semantics for all arguments.",
+      "List sharing, strings, generic and anonymous records are outside; see DESIGN.md 10.6.",
+      "Kani/CBMC bounded model checking of runtime/layout.rs + z3 translation validation of record/enum programs", "K+T", "DESIGN.md 5/C02")
+claim("C03", TV,
+      "For every program of family F6 (a drop-tracked host value at 27 control-flow positions) and every feasible path of the emitted CLIF "
+      "(feasibility decided by z3): the ownership ledger balances - no double drop, no use after drop, no operation on a never-initialised slot, "
+      "nothing live at return except what is returned.",
+      "Ledger keyed by the unique id in each instance's bytes; host functions own their by-value arguments. Strings, lists (incl. for loops) and "
+      "f-strings are not modelled - a seeded double drop in `for` is not detected (DESIGN.md 10.11).",
+      "path-wise symbolic execution of emitted CLIF with an ownership ledger; path feasibility by z3", "T", "DESIGN.md 5/C03")
+claim("C05", MC,
+      "Kani/CBMC, one harness per instantiation (30): for all payload values the repr(u8) mirror of Option/Result/Verdict has tag and payload where "
+      "roto's enum layout rule puts them, in both directions, and untransform(transform(v)) == v. Engine T: identity functions, pass-through to host "
+      "functions, Option/Verdict built in the script and read by Rust and vice versa, for all values.",
+      "Machine calling convention (only exercised by replays), String/List contents, context fields and constants are outside.",
+      "Kani/CBMC bounded model checking of the mirror enums + z3 translation validation of boundary identity programs", "K+T", "DESIGN.md 5/C05")
+claim("C06", MC,
+      "Kani/CBMC: every token recogniser, skip-and-error path of the lexer on EVERY UTF-8 string of at most 3 bytes (thorough: 4, ASCII 5): no "
+      "panic, token spans start at the cursor, are non-empty, inside the input and on character boundaries; f-string parts; the error-token span.",
+      "Lexer and span layer only - parser, type checker, lowering, module loading are outside (no bound small enough for CBMC contains a "
+      "declaration). Stubs: record_almost_keyword -> no-op; for err_span next_token -> 'skip any prefix and decline'.",
+      "Kani/CBMC bounded model checking of src/parser/lexer.rs recognisers over all short UTF-8 inputs", "K", "DESIGN.md 5/C06")
+claim("C08", TV,
+      "For every program of F7/F7R/F6 (effectful host calls at every operand, argument, field, guard, condition and statement position) and every "
+      "jointly feasible path pair: the sequence of host calls and their argument values in the emitted CLIF equals the reference trace, for all inputs.",
+      "List elements, f-string parts and accept/reject are outside; loop bound 3/4.",
+      "translation validation of the host-call trace of emitted CLIF against a reference semantics in z3", "T", "DESIGN.md 5/C08")
+claim("C09", MC,
+      "Kani/CBMC: number / hex / AS-number / quoted-literal / identifier recognisers vs reference scanners written from the documented grammar on every "
+      "ASCII string <= 4 bytes (identifiers: UTF-8 <= 3), and relative_associativity on all 13x13 operator pairs. Engine T: literal spellings and "
+      "unparenthesised operator chains evaluate to what the documented grammar and precedence table dictate, for all arguments.",
+      "Escape decoding (rustc_literal_escaper), IP/prefix literal parsing (std::net), shebang/comments beyond skip_whitespace are outside.",
+      "Kani/CBMC differential checking of lexer recognisers against reference scanners + z3 translation validation of literal/precedence programs", "K+T", "DESIGN.md 5/C09")
+claim("C10", TV,
+      "Engine T: for every sdiv/udiv/srem/urem reached in the F1/F9 corpus z3 is asked for arguments that reach it with trapping operands; every model "
+      "is replayed in a child process (signal observed). Guarded divisions are proved trap-free. Kani: Prefix::new_relaxed (unwrapped by Prefix.new).",
+      "On the pinned tree unguarded division traps: recorded as a known finding keyed by 'the language leaves these operands undefined'; a trap on a "
+      "defined input is still a violation. Built-in glue closures and float built-ins are outside.",
+      "z3 reachability queries for trapping operands on emitted CLIF + Kani on argument-validating kernels", "T+K", "DESIGN.md 5/C10")
+claim("C15", MC,
+      "Kani/CBMC: the real List<T> against an array model, one harness per (pre-state, operation-kind sequence): element values and lookup indices "
+      "symbolic, CBMC pointer checks on every access, two aliased handles; capacity arithmetic for all sizes; == terminates and answers element-wise.",
+      "Operation kinds enumerated (stated bound), u64/u8 elements, sequences of <= 2 (thorough 3) operations from a 0- or 2-element state. Stubs: "
+      "Mutex::lock -> try_lock/DEADLOCK, swap_nonoverlapping -> byte loop. contains/index/concat/to_vec/join, growth, zero-sized and tracked elements "
+      "and script-side bindings are outside (over budget).",
+      "Kani/CBMC bounded model checking of src/value/list.rs against an array model", "K", "DESIGN.md 5/C15, 10.3")
+claim("C16", MC,
+      "Kani/CBMC with the schedule as symbolic input: at each schedule point (hook H3) of get a kani::any() bit decides whether the other thread's "
+      "operation (push / clone+drop; thorough: 4 pushes forcing a reallocation) runs there; deallocated-object checks and linearisability vs the model.",
+      "Sequentialisation: preempting operations run atomically, depth 1, one storage. Quick tier covers get vs push (no reallocation) and get vs "
+      "clone/drop; the reallocation schedule needs 48 GB / 25 min and is thorough-only. ffi::list_get schedules are over budget.",
+      "Kani/CBMC bounded model checking with sequentialised schedules (symbolic preemption points)", "K", "DESIGN.md 5/C16, 10.3")
+claim("C17", MC,
+      "Kani/CBMC: byte view {len, get, slice} on every UTF-8 string <= 2 bytes (thorough 3) and line view {slice, get} on every ASCII string, all indices in "
+      "{0..len+1} u {usize::MAX}, against explicit byte-loop references; no panic.",
+      "Only the byte- and line-indexed string views; everything that is a one-line delegation to std, the char view, floats, to_string, IpAddr/Prefix are outside. "
+      "StringLines::get is a recorded known finding.",
+      "Kani/CBMC differential checking of string views against byte-loop references", "K", "DESIGN.md 5/C17")
+claim("C20", TV,
+      "Engine M: for every straight-line scalar program of the corpus, the LIR the real lowering produced is run through the MIR of the evaluator's "
+      "instruction arms (symbolic payloads) and z3 decides that, wherever the evaluator does not stop loudly, its value equals the emitted CLIF's value, in both "
+      "overflow-check profiles; trapping inputs of the compiled code must be loud stops. Kani: the evaluator's checked memory model.",
+      "Per-instruction agreement for Assign/Add/Sub/Mul/Div/Mod/FDiv/IntCmp/FloatCmp/Not/Negate; Jump/Switch/Call/Return plumbing, CallRuntime, memory "
+      "instructions through eval, and host-call-sequence equality are outside.",
+      "symbolic interpretation of rustc MIR slices of lir::eval::eval compared in z3 with the CLIF encoding; Kani on eval::Memory", "M+K", "DESIGN.md 5/C20, 10.5")
+
 NA["C04"] = "signature gate compares a compile-time Rust type with a Roto type through TypeId-keyed hash maps; no value-level kernel CBMC can execute (probe: 30 min without leaving symex); only enumeration of instantiations would remain"
 NA["C07"] = "acceptance is the control flow of the 5 kLOC inference engine over BTreeMap scope graphs/hash maps/global interner, beyond CBMC (2-insert BTreeMap = 15 GB); compiling ill-typed mutants would be testing, not solving"
 NA["C11"] = "state is mmap'ed JIT memory, Arc counts and drop order across FFI; histories of API calls, nothing value-level to make symbolic; CBMC cannot model the JIT"
